@@ -100,7 +100,7 @@ def _kernel(ctx: Ctx) -> None:
         if repo.resolve_expr(evm.module, c.func) is k and \
                 len(c.args) == 3 and not c.keywords:
             binding = {}
-            for p, a in zip(("x", "distances", "flows"), c.args):
+            for p, a in zip(k.params, c.args):
                 binding[p] = ast.unparse(inline_locals(evm.node, a))
             ok = binding.get("x") == evm.params[1] and \
                 binding.get("distances") == "self.instance.distances" and \
